@@ -235,6 +235,50 @@ def check_constructor(ctx, pkg, name, cls):
         for p, c in others:
             if hits:
                 ctx.violation(rule, key + "|extra", raise_loc(p, loc), f"an additional guard on '{param}' rejects values inside the documented domain '{doc}' (or accepts values outside it)", found=repr(c), expected=" or ".join(repr(w) for w in want))
+    # the numeric domains do not depend on the scorer: with an arbitrary UNFITTED user scorer plugged in (its min_size is
+    # None before fit, as for a cost whose minimum size depends on the data width) every row is still enforced - a lower
+    # bound taken from `scorer.min_size` at construction time silently disappears for such scorers
+    try:
+        from .c15 import _abstract_scorer_overrides
+
+        sc_over = _abstract_scorer_overrides(ctx, cls) or {}
+    except Exception:  # noqa: BLE001
+        sc_over = {}
+    for sprm, mk in sc_over.items():
+        if "point" in sprm:
+            continue  # the point saving's min_size IS part of the documented domain (must be 1)
+
+        def mk_unfitted(ex, mk=mk):
+            o = mk(ex)
+            o.fields["min_size"] = NONE
+            return o
+
+        try:
+            _exu, pu = ctor_paths(ctx, cls, {sprm: mk_unfitted})
+        except Undecided:
+            continue
+        if not returns(pu):
+            continue
+        raising_u = [q for q in pu if q.outcome == "raise"]
+        for _, _, param, doc, build in rows:
+            want = build()
+            pv = Atom("sym", param)
+            had = any(o.key == f"{name}|{param}" and o.status == "HOLDS" for o in ctx.obs)
+            if not had:
+                continue
+            found_u = False
+            for q in raising_u:
+                g = fired_guard(q)
+                if g is None:
+                    continue
+                c, v = g
+                if not v:
+                    c = c.neg()
+                if any(a.key == pv.key for a in atoms_of_cond(c)) and (same_set(c, "or", want) or (len(want) == 1 and c.key == want[0].key)):
+                    found_u = True
+                    break
+            if not found_u:
+                ctx.violation(rule, f"{name}|{param}|unfitted-scorer", loc, f"documented domain '{doc}' is enforced with the default scorer but not with an arbitrary unfitted {sprm} (min_size None before fit): the bound is taken from the scorer at construction time and disappears", found=f"no rejecting path for {param} among {len(raising_u)} raising paths", expected=f"'{doc}' whatever scorer is configured")
     # None: a parameter whose documented domain is numeric (not "or None") must not be accepted as None - a dropped
     # None-guard would let it through to fit/predict
     for _, _, param, doc, _b in rows:
